@@ -24,12 +24,19 @@ Definition mix (seed n : N) : N :=
 
 (* a misbehaving ==: the seed selects the kind of misbehaviour *)
 Definition adv_answer (seed n : N) (truth : bool) : bool :=
-  match N.modulo seed 4 with
-  | 0%N => if N.eqb (N.modulo (mix seed n) 4) 0 then negb truth else truth   (* lies now and then *)
-  | 1%N => true                                   (* everything equals everything *)
-  | 2%N => false                                  (* nothing equals anything, not even itself *)
-  | _ => if N.even n then truth else negb truth   (* changes between two calls on the same operands *)
+  match N.modulo seed 5 with
+  | 4%N => if N.eqb (N.modulo (mix seed n) 4) 0 then negb truth else truth   (* lies now and then *)
+  | 0%N => true                                   (* everything equals everything *)
+  | 1%N => false                                  (* nothing equals anything, not even itself *)
+  | 2%N => if N.even n then truth else negb truth (* changes between two calls on the same operands *)
+  | _ => truth                                    (* determined by the OPERANDS, but asymmetric: see cls_truth *)
   end.
+
+(* the fifth kind of misbehaving == (seed mod 5 = 3): "a == b" iff class a <= class b -- reflexive, transitive, NOT
+   symmetric; what a call answers then depends on which operand stands on which side, so the ORDER OF THE OPERANDS in
+   every comparison the crate makes becomes observable *)
+Definition asym (sc : script) : bool := sc_adv sc && N.eqb (N.modulo (sc_seed sc) 5) 3.
+Definition cls_truth (sc : script) (a b : N) : bool := if asym sc then N.leb a b else N.eqb a b.
 
 Definition eq_answer (sc : script) (s : cstate) (truth : bool) : ans * cstate :=
   let n := n_eq s in
@@ -60,10 +67,10 @@ Definition clone_key_cb (sc : script) (s : cstate) (k : key) : option key * csta
   (option_map (fun i => {| kid := i; kcls := kcls k |}) o, s').
 
 Definition env_map (sc : script) : env key vobj query cstate := {|
-  eqK := fun s a b => eq_answer sc s (N.eqb (kcls a) (kcls b));
-  eqKQ := fun s a q => eq_answer sc s (N.eqb (kcls a) (qcls q));
-  eqQQ := fun s q q' => eq_answer sc s (N.eqb (qcls q) (qcls q'));
-  eqQK := fun s q a => eq_answer sc s (N.eqb (qcls q) (kcls a));
+  eqK := fun s a b => eq_answer sc s (cls_truth sc (kcls a) (kcls b));
+  eqKQ := fun s a q => eq_answer sc s (cls_truth sc (kcls a) (qcls q));
+  eqQQ := fun s q q' => eq_answer sc s (cls_truth sc (qcls q) (qcls q'));
+  eqQK := fun s q a => eq_answer sc s (cls_truth sc (qcls q) (kcls a));
   eqV := fun s a b => eq_answer sc s (N.eqb (vdat a) (vdat b));
   cloneK := clone_key_cb sc;
   cloneV := fun s v => let '(o, s') := clone_tick sc s in
@@ -75,10 +82,10 @@ Definition env_map (sc : script) : env key vobj query cstate := {|
 |}.
 
 Definition env_set (sc : script) : env key unit query cstate := {|
-  eqK := fun s a b => eq_answer sc s (N.eqb (kcls a) (kcls b));
-  eqKQ := fun s a q => eq_answer sc s (N.eqb (kcls a) (qcls q));
-  eqQQ := fun s q q' => eq_answer sc s (N.eqb (qcls q) (qcls q'));
-  eqQK := fun s q a => eq_answer sc s (N.eqb (qcls q) (kcls a));
+  eqK := fun s a b => eq_answer sc s (cls_truth sc (kcls a) (kcls b));
+  eqKQ := fun s a q => eq_answer sc s (cls_truth sc (kcls a) (qcls q));
+  eqQQ := fun s q q' => eq_answer sc s (cls_truth sc (qcls q) (qcls q'));
+  eqQK := fun s q a => eq_answer sc s (cls_truth sc (qcls q) (kcls a));
   eqV := fun s _ _ => (Yes, s);
   cloneK := clone_key_cb sc;
   cloneV := fun s _ => (Some tt, s);
